@@ -50,7 +50,7 @@ def cond(words, var="l"):
 
 
 def digs(s):
-    return {1: "d1", 2: "d2", 3: "d3"}[len(s)] + "(" + ", ".join(f"{ord(c)}u8" for c in s) + ")"
+    return {1: "d1", 2: "d2", 3: "d3", 4: "d4"}[len(s)] + "(" + ", ".join(f"{ord(c)}u8" for c in s) + ")"
 
 
 def emit_wcode():
@@ -157,7 +157,7 @@ def emit_rows(c, rows, word_facts, row_stmt, nmod=8, props="C01, C04, C08, C16",
     for k, r in enumerate(rows):
         if r["word"] == ",":
             o.append(f"/// a comma is refused by the interpreter, and not as `incomplete`")
-            o.append(f"pub proof fn lemma_{c}_comma(o: DsView) ensures {row_stmt(r)} {{ {c}_rows_{k % nmod}::lemma_{c}_row_{k}(o); }}")
+            o.append(f"pub proof fn lemma_{c}_comma(o: DsView) ensures {row_stmt(r)}, {word_facts(r)[0]} {{ {c}_rows_{k % nmod}::lemma_{c}_row_{k}(o); lemma_{c}_word_{k}(); }}")
     for i, b in enumerate(mods):
         o.append(f"pub mod {c}_rows_{i} {{")
         o.append("    use vstd::prelude::*; use super::*;")
@@ -511,7 +511,127 @@ def portuguese():
     print(c + ":", len(arms), "arms,", len(rows), "rows,", len(allwords), "words")
 
 
-LANGS = {"en": english, "es": spanish, "fr": french, "pt": portuguese}
+# ------------------------------------------------------------------ Italian
+def occurs(p, w):
+    return p in w
+
+
+def italian():
+    c = "it"
+    arms = load_arms(c)
+    emit_model(c, arms, "arm-level model of Italian::apply for a word the splitter leaves whole: the match on the lemma (layer L3a)",
+               extra_params=", w: Seq<char>")
+    PATS = ["miliardesim", "milionesim", "bilionesim", "cinquanta", "centesim", "millesim", "miliardo", "miliardi", "quaranta", "sessanta", "settanta",
+            "milione", "milioni", "bilione", "bilioni", "ottanta", "novanta", "trenta", "ttanta", "cento", "mille", "venti", "mila"]
+    rows = []
+
+    def add(w, cls, digits, n=0, desc=None):
+        l = lemma_of(w)
+        mk = {0: None, 1: "º", 2: "ª"}[marker_kind(w)]
+        rows.append({"word": w, "cls": cls, "digits": digits, "n": n, "marker": mk, "expect": (digits + (mk or "")) if digits else None,
+                     "desc": desc or f"{cls} {digits}" + (f", marker `{mk}`" if mk else "")})
+
+    STEMS = ("prim", "second", "terz", "quart", "quint", "sest", "settim", "ottav", "ttav", "non", "decim")
+
+    def lemma_of(w):
+        cand = w.rstrip("oaei")
+        if (cand in STEMS and w != "secondi") or cand.endswith("esim"):
+            return cand
+        return w
+
+    def marker_kind(w):
+        if lemma_of(w) != w and w:
+            return 1 if w[-1] in "oi" else 2 if w[-1] in "ae" else 0
+        return 0
+
+    def infl(stem):
+        return [stem + v for v in "oaie"]
+    add("zero", "zero", "0")
+    for w in ["uno", "un", "una"]:
+        add(w, "elided", "1")
+    for w in infl("unesim"):
+        add(w, "elided", "1")
+    units = [("due", "duesim", "2"), ("tre", "treesim", "3"), ("quattro", "quattresim", "4"), ("cinque", "cinquesim", "5"), ("sei", "seiesim", "6"),
+             ("sette", "settesim", "7"), ("nove", "novesim", "9")]
+    for cw, stem, d in units:
+        add(cw, "unit", d)
+        for w in infl(stem):
+            add(w, "unit", d)
+    add("tré", "unit", "3")
+    for w in ["otto", "tto"] + infl("ottesim") + infl("ttesim"):
+        add(w, "elided", "8")
+    for stem, d in [("prim", "1"), ("second", "2"), ("terz", "3"), ("quart", "4"), ("quint", "5"), ("sest", "6"), ("settim", "7"), ("ottav", "8"), ("non", "9")]:
+        for w in infl(stem):
+            if w != "secondi":
+                add(w, "ordunit", d)
+    fixed = [("dieci", "decim", "10"), ("undici", "undicesim", "11"), ("dodici", "dodicesim", "12"), ("tredici", "tredicesim", "13"),
+             ("quattordici", "quattordicesim", "14"), ("quindici", "quindicesim", "15"), ("sedici", "sedicesim", "16"), ("diciassette", "diciassettesim", "17"),
+             ("diciotto", "diciottesim", "18"), ("diciannove", "diciannovesim", "19")]
+    tens = [("vent", "2"), ("trent", "3"), ("quarant", "4"), ("cinquant", "5"), ("sessant", "6"), ("settant", "7"), ("ottant", "8"), ("novant", "9")]
+    for t, d in tens:
+        fixed.append((t + ("i" if t == "vent" else "a"), t + "esim", d + "0"))
+        fixed.append((t + "uno", t + "unesim", d + "1"))
+        fixed.append((t + "un", None, d + "1"))
+        fixed.append((t + "otto", t + "ottesim", d + "8"))
+    fixed.append(("ttanta", "ttantesim", "80"))
+    fixed.append(("centuno", "centunesim", "101"))
+    fixed.append(("centun", None, "101"))
+    for cw, stem, d in fixed:
+        add(cw, "fixed", d)
+        if stem:
+            for w in infl(stem):
+                add(w, "fixed", d)
+    add("cento", "cento", "100", 2, "hundred: multiplies a unit from 2 to 9, or stands for 100")
+    for w in infl("centesim"):
+        add(w, "cento", "100", 2, "hundredth")
+    add("mille", "mille", "1000", 3)
+    add("mila", "mila", "", 3, "thousands (after a number other than one)")
+    for w in infl("millesim"):
+        add(w, "millesim", "1000", 3, "thousandth")
+    for stem, n in [("milion", 6), ("miliard", 9), ("bilion", 12)]:
+        sing = stem + ("o" if stem == "miliard" else "e")
+        add(sing, "scale1", "", n, f"10^{n} after exactly `un`")
+        add(stem + "i", "scalep", "", n, f"10^{n} after a number other than one")
+        for w in infl(stem + "esim"):
+            add(w, "scaleo", "1" + "0" * n, n, f"10^{n}, ordinal")
+    add("e", "e", "", 0, "`e` (and) is only a link inside a number")
+    rows.append({"word": ",", "cls": "comma", "digits": "", "n": 0, "marker": None, "expect": None, "desc": "a comma is never a number word (it ends the number in progress)"})
+
+    def splittable(w):
+        return any(p in w for p in PATS) and w not in PATS
+
+    def word_facts(r):
+        w = r["word"]
+        l = lemma_of(w)
+        k = marker_kind(w)
+        sp = "true" if splittable(l) else "false"
+        if splittable(l) and w != ",":
+            print("  note: row word", w, "is splittable: its table arm is never reached")
+        ens = f"it_lemma({W(w)}) == {W(l)}, it_marker_kind({W(w)}) == {k}, splittable_spec(it_pats(), {W(l)}) == {sp}"
+        asserts = [f"assert(it_lemma({W(w)}) =~= {W(l)}) by(compute_only);", f"assert(it_marker_kind({W(w)}) == {k}) by(compute_only);",
+                   f"assert(splittable_spec(it_pats(), {W(l)}) == {sp}) by(compute_only);"]
+        if l == "non":
+            ens += f", {W(w)} != w_non()"
+            asserts += ["it_codes();", f"assert(wcode({W(w)}) == {wcode(w)}) by(compute_only);"]
+        return ens, asserts, l
+
+    CLS = {"zero": 0, "elided": 1, "unit": 2, "ordunit": 3, "fixed": 4, "cento": 5, "mille": 6, "mila": 7, "millesim": 8, "scale1": 9, "scaleo": 10, "scalep": 11, "e": 12}
+
+    def row_stmt(r):
+        if r["word"] == ",":
+            return f"!it_model({W(',')}, o).ok && !(it_model({W(',')}, o).err is Incomplete)"
+        d = digs(r["digits"]) if (r["digits"] and len(r["digits"]) <= 4) else "Seq::<u8>::empty()"
+        return f"it_row({CLS[r['cls']]}, {d}, {r['n']}, {marker_kind(r['word'])}, false, o, it_model({W(r['word'])}, o))"
+    extra = list(STEMS) + ["secondi", "esim", "virgola", "non", ""] + PATS
+    allwords = set(w for ws, _, _ in arms for w in ws) | set(r["word"] for r in rows) | set(lemma_of(r["word"]) for r in rows) | set(extra)
+    ARMS_CURRENT[:] = arms
+    inner = emit_rows(c, rows, word_facts, row_stmt)
+    emit_words(c, allwords, inner, arms)
+    json.dump(rows, open(os.path.join(T, f"{c}_rows.json"), "w", encoding="utf-8"), ensure_ascii=False)
+    print(c + ":", len(arms), "arms,", len(rows), "rows,", len(allwords), "words")
+
+
+LANGS = {"en": english, "es": spanish, "fr": french, "pt": portuguese, "it": italian}
 
 if __name__ == "__main__":
     emit_wcode()
